@@ -65,9 +65,23 @@ class Stage:
     def call(self, obj, arrays, c):
         raise NotImplementedError
 
+    def call_alt(self, obj, arrays, c):
+        """A call with another value of an optional, non-array argument (result discarded); None = stage has none."""
+        return None
+
+    def other_case(self, case):
+        """Parameters of a SECOND module object of a different configuration that lives in the same process."""
+        return case
+
 
 class GeomThrow(Stage):
     name = "geometry.throw"
+
+    def other_case(self, case):
+        cfg = dict(case["cfg"])
+        cfg["alt"] = cfg["alt"] * 1.7 + 3.0
+        cfg["limb_frac"] = 0.37
+        return dict(case, cfg=cfg)
 
     def make(self, case):
         from nuspacesim.simulation.geometry.region_geometry import RegionGeom
@@ -140,6 +154,9 @@ class TargetThrow(Stage):
 class TauEnergy(Stage):
     name = "taus.tau_energy"
 
+    def other_case(self, case):
+        return dict(case, version={"1": "2", "2": "3", "3": "1"}[case["version"]])
+
     def make(self, case):
         from .c04 import _taus
 
@@ -203,6 +220,9 @@ class AltDec(Stage):
 class Spectrum(Stage):
     name = "spectra"
 
+    def other_case(self, case):
+        return dict(case, spectrum={"id": "powerspectrum", "index": 2.6, "lower_bound": 6.5, "upper_bound": 11.0})
+
     def make(self, case):
         from .c12 import _spectra
 
@@ -223,6 +243,16 @@ class Spectrum(Stage):
 class Optical(Stage):
     name = "eas.__call__"
     max_n = 24
+
+    def call_alt(self, obj, arrays, c):
+        import dask
+
+        beta, alt, E, lat, lon = arrays
+        with dask.config.set(scheduler="synchronous"), quiet():
+            return list(obj(beta, alt, E, lat, lon, cloudf=lambda la, lo: 6.0 + 3.0 * c))
+
+    def other_case(self, case):
+        return dict(case, det={525.0: 33.0, 33.0: 2000.0, 2000.0: 525.0}[case["det"]])
 
     def make(self, case):
         from .c08 import _eas
@@ -251,6 +281,9 @@ class Optical(Stage):
 class Radio(Stage):
     name = "radio"
     max_n = 2000
+
+    def other_case(self, case):
+        return dict(case, det={525.0: 33.0, 33.0: 2000.0, 2000.0: 525.0}[case["det"]])
 
     def make(self, case):
         from nuspacesim.config import NssConfig
@@ -338,7 +371,13 @@ def body_stage(case):
         require(_bytes([g]) == _bytes([b]), f"{stage.name}: evaluating events [0:{k}] and [{k}:{n}] separately and concatenating differs from the whole batch in output #{j}")
     if 0 < k < n:
         labels.add("interior_split")
-    # history on one object: repeat, permuted, sub-batch, repeat - each equals the fresh-object result
+    # history on one object - every call equals the fresh-object result for its inputs:
+    #   same / perm / half : new arrays each time;   refill : the SAME ndarray objects refilled in place with other
+    #   contents (identity-keyed caches);   scribble : the caller overwrites what it was handed back, then calls again
+    #   (results aliasing internal state);   alt : an intervening call with another optional argument (sticky options);
+    #   other : an intervening call on a second object of a different configuration (state shared between objects)
+    bufs = [np.array(a, dtype=np.float64) for a in arrays]
+    last_out = None
     for step, which in enumerate(case["history"]):
         if which == "same":
             r = _run(stage, obj, arrays, c, readonly=(step % 2 == 1))
@@ -346,12 +385,46 @@ def body_stage(case):
         elif which == "perm":
             r = _run(stage, obj, tuple(a[perm] for a in arrays), c)
             want = [b[perm] for b in base]
-        else:
+        elif which == "half":
             h = max(1, n // 2)
             r = _run(stage, obj, tuple(a[:h] for a in arrays), c)
             want = [b[:h] for b in base]
-        for j, (g, b) in enumerate(zip(r, want)):
-            require(_bytes([g]) == _bytes([b]), f"{stage.name}: call #{step + 2} ('{which}') on the same object differs from a fresh object's result in output #{j} (history {case['history'][: step + 1]})")
+        elif which == "refill":
+            src = [a[perm] for a in arrays] if step % 2 == 0 else list(arrays)
+            for b_, a_ in zip(bufs, src):
+                b_[...] = a_
+            snap = [b_.tobytes() for b_ in bufs]
+            with cut(f"{stage.name}(input buffers refilled in place)"):
+                r = [np.asarray(o) for o in stage.call(obj, tuple(bufs), c)]
+            require([b_.tobytes() for b_ in bufs] == snap, f"{stage.name} modified its input buffers")
+            want = [b[perm] for b in base] if step % 2 == 0 else base
+            labels.add("refilled_buffers")
+        elif which == "scribble":
+            if last_out is not None:
+                for o in last_out:
+                    if isinstance(o, np.ndarray) and o.flags.writeable and o.dtype.kind == "f":
+                        o[...] = -7.0
+            r = _run(stage, obj, arrays, c)
+            want = base
+            labels.add("scribbled_on_results")
+        elif which == "alt":
+            with cut(f"{stage.name}(other optional argument)"):
+                stage.call_alt(obj, tuple(np.array(a) for a in arrays), c)
+            r = _run(stage, obj, arrays, c)
+            want = base
+            if type(stage).call_alt is not Stage.call_alt:
+                labels.add("optional_argument_toggled")
+        else:  # other
+            oc = stage.other_case(case)
+            with cut(f"{stage.name}: second object"):
+                other = stage.make(oc)
+                stage.call(other, tuple(np.array(a[::-1]) for a in stage.inputs(oc, n)), c)
+            r = _run(stage, obj, arrays, c)
+            want = base
+            labels.add("second_object_interleaved")
+        for j2, (g, b) in enumerate(zip(r, want)):
+            require(_bytes([g]) == _bytes([b]), f"{stage.name}: call #{step + 2} ('{which}') on the same object differs from a fresh object's result in output #{j2} (history {case['history'][: step + 1]})")
+        last_out = r
     if len(case["history"]) >= 2:
         labels.add("history>=2")
     if n > 8192:
@@ -479,7 +552,7 @@ def stage_case(names, sizes):
             "c": st.floats(0.01, 0.99),
             "perm": st.lists(st.floats(0.0, 1.0), min_size=16, max_size=16),
             "split": st.sampled_from(["0", "1", "n-1", "n", "0.5", "0.37", "0.9", "0.41"]),
-            "history": st.lists(st.sampled_from(["same", "perm", "half"]), min_size=1, max_size=4),
+            "history": st.lists(st.sampled_from(["same", "perm", "half", "refill", "refill", "scribble", "alt", "other", "other"]), min_size=1, max_size=5),
         }
     )
 
